@@ -10,6 +10,7 @@ import struct
 import k8
 import spec
 from facts import AnalysisBroken
+import cfg
 from rules import layout, common
 
 
@@ -274,6 +275,63 @@ def r01_4(chk, P):
                msg or ' -> '.join(f'{STAGES[x]}@{ln}' for x, ln in order))
 
 
+def r01_5(chk, P):
+    chk.rule('R01.5', 'codebook value tables are addressed by the entry number, as the specification defines both lookup types '
+             '(03-codebook: type 1 takes the entry number\'s base-lookup_values digits, type 2 reads at entry*dimensions+i): in '
+             '_book_unquantize the effective index of every read of the quantised value list (directly or through a row '
+             'pointer) depends on the induction variable of the loop over [0,entries), not on the count of used entries')
+    F = P.need('_book_unquantize')
+    defs = common.single_defs(F)
+    # loops over the entries of the book
+    ent = {}
+    for h, body in cfg.loops(F).items():
+        t = F.blocks[h].get('term')
+        if not t or t.get('cond') is None:
+            continue
+        c = F.ex[F.strip_casts(t['cond'])]
+        if c['k'] == 'bin' and c['op'] == '<':
+            a = F.ex[F.strip_casts(c['c'][0])]
+            b = F.ex[F.strip_casts(c['c'][1])]
+            if a['k'] == 'ref' and b['k'] == 'member' and b.get('field') == 'entries':
+                ent[h] = a['decl']['id']
+    chk.require(ent, '_book_unquantize: loops over the entries not found')
+
+    def vars_of(e, depth=0):
+        out = set()
+        for n in F.walk(e):
+            nd = F.ex[n]
+            if nd['k'] == 'ref' and nd['decl']['kind'] in ('var', 'param'):
+                out.add(nd['decl']['id'])
+                d = defs.get(nd['decl']['id'])
+                if d is not None and depth < 3:
+                    out |= vars_of(d, depth + 1)
+        return out
+
+    k = 0
+    for e in sorted(F.pos):
+        nd = F.ex[e]
+        if nd['k'] != 'sub':
+            continue
+        base = F.ex[F.strip_casts(nd['c'][0])]
+        idxvars = None
+        if base['k'] == 'member' and base.get('field') == 'quantlist':
+            idxvars = vars_of(nd['c'][1])
+        elif base['k'] == 'ref' and base['decl']['kind'] == 'var':
+            d = defs.get(base['decl']['id'])
+            if d is not None and any(F.ex[x]['k'] == 'member' and F.ex[x].get('field') == 'quantlist' for x in F.walk(d)):
+                idxvars = vars_of(nd['c'][1]) | vars_of(d)
+        if idxvars is None:
+            continue
+        loops_here = [h for h, body in cfg.loops(F).items() if F.pos[e][0] in body and h in ent]
+        ok = any(ent[h] in idxvars for h in loops_here)
+        chk.ob('R01.5', F.name, f'value-row-addressed-by-entry#{k}', ok, F.where(e),
+               f'{F.s(e)}: the index depends on the entry loop variable' if ok else
+               f'{F.s(e)}: the index does not depend on the entry number (variables used: '
+               f'{sorted(F.vars.get(v, {}).get("name", str(v)) for v in idxvars)}): with unused entries the wrong rows are read')
+        k += 1
+    chk.require(k >= 2, '_book_unquantize: reads of the value list not found')
+
+
 def run(chk, P):
     chk.rule('R01.1', 'for every specification section with a bit layout the sequence of field widths in the TeX source '
              '(document order, consecutive duplicates collapsed, computed widths as V) is a linearisation of the reader '
@@ -286,6 +344,8 @@ def run(chk, P):
     chk.floor('R01.3', 12)
     r01_4(chk, P)
     chk.floor('R01.4', 1)
+    r01_5(chk, P)
+    chk.floor('R01.5', 2)
     chk.notes.append(f'R01.2 compared {ncon} table constants')
     chk.trusted += ['clang 14 front end and constant evaluator', 'the specification sources doc/*.tex of the repository are the oracle',
                     'width extraction from the TeX text (engine/spec.py) recognises the phrasings used in the pinned documents; '
